@@ -58,6 +58,7 @@ type SrvEvent struct {
 	Reply   string   `json:"reply"`
 	Frame   string   `json:"frame"`
 	Closed  bool     `json:"closed"`
+	Leak    bool     `json:"leak"` // transport.auth visible in wamp.session.get
 	HsReply []any    `json:"hsreply"`
 }
 
@@ -111,6 +112,9 @@ func runSrv(enc *json.Encoder, sc *SrvScenario) {
 	var closer io.Closer
 	if sc.Kind == "ws" {
 		s := router.NewWebsocketServer(r)
+		// what the upgrade leaves for authenticators (transport.auth) must stay with them
+		s.EnableTrackingCookie = true
+		s.EnableRequestCapture = true
 		switch sc.Origins {
 		case "list":
 			if err := s.AllowOrigins([]string{"good.example", "*.glob.example"}); err != nil {
@@ -135,6 +139,7 @@ func runSrv(enc *json.Encoder, sc *SrvScenario) {
 
 	var ws *websocket.Conn
 	var tc net.Conn
+	var lastMsg wamp.Message
 	var ser serialize.Serializer
 	proto := ""
 	defer func() {
@@ -170,6 +175,7 @@ func runSrv(enc *json.Encoder, sc *SrvScenario) {
 				frame = "text"
 			}
 			rm, derr := ser.Deserialize(data)
+			lastMsg = rm
 			return replyName(rm, derr), frame, false
 		}
 		hdr := []byte{0, byte(len(b) >> 16), byte(len(b) >> 8), byte(len(b))}
@@ -188,11 +194,22 @@ func runSrv(enc *json.Encoder, sc *SrvScenario) {
 			return r, "", c
 		}
 		rm, derr := ser.Deserialize(buf)
+		lastMsg = rm
 		return replyName(rm, derr), "", false
 	}
+	var sid wamp.ID
 	for _, in := range sc.Steps {
 		ev := SrvEvent{Ev: "step", Scn: sc.ID, In: in, Kind: sc.Kind}
 		switch in.Op {
+		case "sget":
+			ev.Reply, ev.Frame, ev.Closed = roundTrip(&wamp.Call{Request: 9, Options: wamp.Dict{}, Procedure: "wamp.session.get", Arguments: wamp.List{sid}})
+			if res, ok := lastMsg.(*wamp.Result); ok && len(res.Arguments) > 0 {
+				if d, ok := wamp.AsDict(res.Arguments[0]); ok {
+					if tr, ok := wamp.AsDict(d["transport"]); ok && tr != nil {
+						_, ev.Leak = tr["auth"]
+					}
+				}
+			}
 		case "cconnect":
 			// the nexus client library is the connecting side
 			ctx, cancel := context.WithTimeout(context.Background(), srvWait)
@@ -254,7 +271,10 @@ func runSrv(enc *json.Encoder, sc *SrvScenario) {
 				}
 			}
 		case "hello":
-			ev.Reply, ev.Frame, ev.Closed = roundTrip(&wamp.Hello{Realm: "srv.realm", Details: wamp.Dict{"roles": wamp.Dict{"publisher": wamp.Dict{}, "subscriber": wamp.Dict{}}}})
+			ev.Reply, ev.Frame, ev.Closed = roundTrip(&wamp.Hello{Realm: "srv.realm", Details: wamp.Dict{"roles": wamp.Dict{"publisher": wamp.Dict{}, "subscriber": wamp.Dict{}, "caller": wamp.Dict{}}}})
+			if w, ok := lastMsg.(*wamp.Welcome); ok {
+				sid = w.ID
+			}
 		case "pub":
 			ev.Reply, ev.Frame, ev.Closed = roundTrip(&wamp.Publish{Request: 7, Options: wamp.Dict{"acknowledge": true}, Topic: "srv.topic"})
 		case "rshs":
